@@ -1321,7 +1321,9 @@ def rule_R23(toks, fired):
 
 def rule_R24(toks, fired):
     """ITER.fold(INIT, |ACC, PAT| BODY)  ->  { let mut ACC = INIT; for PAT in ITER { ACC = BODY; } ACC }
-    (definition of Iterator::fold: the accumulator starts at INIT and is replaced by the closure's value, element by element)"""
+    (definition of Iterator::fold: the accumulator starts at INIT and is replaced by the closure's value, element by element)
+    A closure with an explicit return type and block body, `|ACC, PAT| -> TYPE { EXPR }`, is taken with BODY = `{ EXPR }` (the type
+    annotation is dropped: it only guides inference); any other use of `->` is an ExtractError."""
     i = 0
     while i < len(toks):
         t = toks[i]
@@ -1351,6 +1353,20 @@ def rule_R24(toks, fired):
             if not (len([x for x in acc if x.kind not in ("ws", "comment")]) == 1 and acc[0].kind == "ident"):
                 raise ExtractError("R24: accumulator parameter is not a plain identifier")
             body = _strip_ws(clo[c1 + 1:])
+            # (additive, unit nonsym_cones) a closure with an explicit return type must have a block body:
+            #   |ACC, PAT| -> TYPE { EXPR }   is   |ACC, PAT| { EXPR }   with the value's type written down; the annotation only guides type
+            # inference (here the accumulator's type, which `let mut ACC = INIT` already fixes), so it is dropped and the block kept as BODY
+            bcode = [k for k, x in enumerate(body) if x.kind not in ("ws", "comment")]
+            if bcode and body[bcode[0]].kind == "punct" and body[bcode[0]].text == "->":
+                k = bcode[0] + 1
+                while k < len(body) and not (body[k].kind == "punct" and body[k].text == "{"):
+                    if body[k].kind == "punct" and body[k].text in ("(", "["):
+                        k = match_close(body, k)
+                    k += 1
+                if k >= len(body) or match_close(body, k) != bcode[-1]:
+                    raise ExtractError("R24: closure with a return type is not of the form `-> TYPE { EXPR }`")
+                body = body[k:]
+                fired["R24_ret"] = fired.get("R24_ret", 0) + 1
             a = _postfix_start(toks, dot)
             recv = toks[a:dot]
             an = acc[0].text
